@@ -39,7 +39,19 @@ OTHER = {"C06-D": "C11",     # template field lost over dump / reload: C11's sta
          "C13-N": "C16",     # the sFlow worker waits for room in the mirror queue (mirroring must not stop decoding: C16)
          "C15-M": "C11",     # variable-length flag of a template field not saved with the cache (Dump / GetCache round trip: C11)
          "C15-N": "C10",     # unchanged templates refreshed under the shard's read lock: map write during Dump (C10)
-         "C16-N": "C13"}     # an empty datagram is not handed to the workers: received but not counted (C13)
+         "C16-N": "C13",     # an empty datagram is not handed to the workers: received but not counted (C13)
+         # round 8
+         "C01-P": "C13",     # -verbose log line dereferences a nil datagram in the sFlow worker: the worker process dies (C12 / C13 jobs with -verbose)
+         "C02-O": "C10",     # template refreshed in place while another worker decodes with it: data race on the cache (C10)
+         "C03-P": "C11",     # exporter address stored as net.IP (again): 4-octet exporters lose their templates over a restart (C11)
+         "C04-O": "C11",     # the same
+         "C06-O": "C12",     # the v9 worker queues its encode buffer without a copy (C12)
+         "C06-P": "C04",     # per-shard limit with eviction: needs 66 000 templates (C04's long-running stage)
+         "C07-P": "C13",     # an sFlow datagram of exactly the buffer size is dropped by the receive loop (C13: backlog, end to end)
+         "C09-O": "C02",     # unknown-template request "makes room" with two blocking channel operations (C02 storm)
+         "C10-O": "C04",     # shard size cap that also blocks re-announcements: needs 131 000 templates (C04's long-running stage)
+         "C10-P": "C04",     # v9 "no chains" lookup returns another exporter's template (C04: NeverForeign)
+         "C17-P": "C15"}     # v9 listens on a random port for an IPv6 bind address (Lifecycle.tla runs in C15)
 # judged outside the properties (see DESIGN.md section 9): not expected to be detected
 OUTSIDE = {"C17-E"}
 
